@@ -729,7 +729,9 @@ impl<const LEVELS: usize> OrderBook<LEVELS> {
     /// maintains the same id.
     ///
     /// If the price/vol are None then the original
-    /// price/vol are kept.
+    /// price/vol are kept. A new price that is not a
+    /// multiple of the tick-size is ignored (the order
+    /// is left unchanged).
     ///
     /// # Arguments
     ///
@@ -745,6 +747,14 @@ impl<const LEVELS: usize> OrderBook<LEVELS> {
         new_price: Option<Price>,
         new_vol: Option<Price>,
     ) {
+        // A new price that is not a multiple of the tick size is
+        // rejected (as in order creation) and the order left as it is
+        if let Some(p) = new_price {
+            if p % self.tick_size != 0 {
+                return;
+            }
+        }
+
         let mut order_entry = self.orders[order_id];
 
         if order_entry.order.status == Status::Active {
